@@ -26,5 +26,8 @@ def run(rep):
     mr.rule_sink(rep, "C13.sink", "C13.crlf", want=("crlf",))
     # content lines are the scanner's physical lines: lines end at line feeds only
     lr.rule_scanner(rep, "C13.physline", "C13.scan")
+    # ... also for documents read through the source stream: the file's text reaches the scanner untranslated (a lone CR
+    # inside a content line is content, not a line break)
+    lr.rule_source_io(rep, "C13.src")
     # no hidden state: what the property promises for one use must hold for every later use as well
     ms.rule_stateless(rep, "C13")
